@@ -188,3 +188,148 @@ def parse_values(text, n):
     pairs = es[0]
     assert len(pairs) == n, (len(pairs), n)
     return [value_of(p[1]) for p in pairs]
+
+
+# ----------------------------------------------------------------------------------
+# persistent z3 for the (many, small) feasibility queries of path exploration
+
+class Persistent:
+    def __init__(self, timeout_ms=250):
+        self.timeout_ms = timeout_ms
+        self.p = None
+        self.n = 0
+
+    def start(self):
+        self.p = subprocess.Popen(['z3-new', '-in', '-smt2', '-t:%d' % self.timeout_ms], stdin=subprocess.PIPE,
+                                  stdout=subprocess.PIPE, stderr=subprocess.STDOUT, text=True, bufsize=1)
+
+    def check(self, asserts):
+        """'sat' | 'unsat' | 'unknown'"""
+        if self.p is None or self.p.poll() is not None or self.n > 4000:
+            self.close()
+            self.start()
+            self.n = 0
+        self.n += 1
+        text = script(asserts)
+        body = text.split('\n', 2)[2]          # drop set-option / set-logic lines
+        body = body.replace('(check-sat)\n', '')
+        msg = '(push)\n%s(check-sat)\n(pop)\n(echo "---done---")\n' % body
+        t0 = time.time()
+        try:
+            self.p.stdin.write(msg)
+            self.p.stdin.flush()
+            out = []
+            while True:
+                line = self.p.stdout.readline()
+                if not line:
+                    raise IOError('z3 died')
+                line = line.strip()
+                if line == '---done---':
+                    break
+                out.append(line)
+        except Exception:
+            self.close()
+            return 'unknown'
+        STATS['queries'] += 1
+        STATS['seconds'] += time.time() - t0
+        STATS['by_solver']['z3-persistent'] = STATS['by_solver'].get('z3-persistent', 0) + 1
+        for line in out:
+            if line in ('sat', 'unsat', 'unknown'):
+                return line
+        return 'unknown'
+
+    def close(self):
+        if self.p is not None:
+            try:
+                self.p.kill()
+            except Exception:
+                pass
+            self.p = None
+
+
+import threading
+_PERSISTENT = None
+_FEAS_CACHE = {}
+_LOCK = threading.Lock()
+
+
+def feasible(asserts):
+    global _PERSISTENT
+    key = hash(tuple(asserts))
+    r = _FEAS_CACHE.get(key)
+    if r is not None:
+        return r
+    with _LOCK:
+        if _PERSISTENT is None:
+            _PERSISTENT = Persistent()
+        v = _PERSISTENT.check(asserts)
+    r = v != 'unsat'
+    _FEAS_CACHE[key] = r
+    return r
+
+
+def check_race(asserts, get_values=(), solvers=('z3', 'cvc5'), timeout=10.0):
+    """Run the back ends concurrently; the first definite answer (sat/unsat) wins."""
+    text = script(asserts, get_values)
+    key = (hashlib.sha1(text.encode()).hexdigest(), ('race',) + tuple(solvers), timeout)
+    if key in _CACHE:
+        return _CACHE[key]
+    procs = []
+    t0 = time.time()
+    for sname in solvers:
+        cmd = list(SOLVERS[sname])
+        if sname.startswith('z3'):
+            cmd.append('-T:%d' % max(1, int(timeout + 0.999)))
+        else:
+            cmd.append('--tlimit=%d' % int(timeout * 1000))
+        p = subprocess.Popen(cmd, stdin=subprocess.PIPE, stdout=subprocess.PIPE, stderr=subprocess.STDOUT, text=True)
+        try:
+            p.stdin.write(text)
+            p.stdin.close()
+        except Exception:
+            pass
+        procs.append((sname, p))
+    log, res = [], None
+    pending = list(procs)
+    while pending and res is None and time.time() - t0 < timeout + 5:
+        for sname, p in list(pending):
+            if p.poll() is None:
+                continue
+            pending.remove((sname, p))
+            out = p.stdout.read()
+            first = out.strip().split('\n', 1)[0].strip() if out.strip() else ''
+            dt = time.time() - t0
+            verdict = first if first in ('sat', 'unsat', 'unknown') else ('timeout' if 'timeout' in out or 'interrupted' in out else 'error')
+            log.append((sname, verdict, round(dt, 3)))
+            STATS['queries'] += 1
+            STATS['by_solver'][sname] = STATS['by_solver'].get(sname, 0) + 1
+            if verdict in ('sat', 'unsat'):
+                model = None
+                if verdict == 'sat' and get_values:
+                    try:
+                        model = parse_values(out.split('\n', 1)[1], len(get_values))
+                    except Exception:
+                        model = None
+                res = dict(verdict=verdict, solver=sname, seconds=dt, model=model, output=out, log=log)
+                break
+        if res is None and pending:
+            time.sleep(0.01)
+    for sname, p in pending:
+        try:
+            p.kill()
+            p.stdout.close()
+        except Exception:
+            pass
+        if res is None:
+            log.append((sname, 'timeout', round(time.time() - t0, 3)))
+    for sname, p in procs:
+        try:
+            p.wait(timeout=1)
+        except Exception:
+            pass
+    if res is None:
+        res = dict(verdict=log[-1][1] if log else 'error', solver=None, seconds=time.time() - t0, model=None,
+                   output='', log=log)
+    STATS['seconds'] += time.time() - t0
+    _CACHE[key] = res
+    return res
